@@ -53,7 +53,17 @@ def check_audio(case, rec_):
     mind, maxd, sild = audio.split_durations(win, (B / sr) if via_reader else aw)
     kmin, kmax, ksil = win[:3]
     N = len(data) // (rec["sw"] * rec["ch"])
+    if case.get("fifo"):
+        return check_fifo(case, rec_, data, thr, aw, mind, maxd, sild)
     src = CountingSource(data, sr, rec["sw"], rec["ch"])
+    limit = None
+    if case.get("mr") is not None and not via_reader:
+        # max_read that is not a whole number of windows: "never more" also holds for the last, partial one
+        from .c10 import resolve_max_read
+
+        mr, limit = resolve_max_read({"mr": [min(case["mr"][0], N), case["mr"][1]], "sr": sr})
+        if mr is None:
+            limit = None
     kw = dict(min_dur=mind, max_dur=maxd, max_silence=sild, drop_trailing_silence=win[3],
               strict_min_dur=win[4], energy_threshold=thr, use_channel=rec.get("uc"))
     overlap = bool(case.get("overlap")) and via_reader and B % 2 == 0 and not rec.get("thr0")
@@ -64,6 +74,10 @@ def check_audio(case, rec_):
     else:
         inp = src
         kw["analysis_window"] = aw
+        if limit is not None:
+            kw["mr" if case["mr"][0] % 2 else "max_read"] = mr
+            data = data[: limit * rec["sw"] * rec["ch"]]
+            N = min(N, limit)
     gen = auditok.split(inp, **kw)
     if src.reads or src.samples_out:
         raise Violation(f"split() read {src.samples_out} samples before the first next()", case)
@@ -85,6 +99,10 @@ def check_audio(case, rec_):
         exp = ref_tokens(dec, kmin, kmax, ksil, win[4], win[3])
     got = []
     classes = {"audio_lazy"} | ({"audio_overlapping_reader"} if overlap else set())
+    if limit is not None:
+        classes.add("audio_max_read")
+        if limit % B:
+            classes.add("audio_max_read_ends_inside_a_window")
     early = False
     for r in gen:
         i = len(got)
@@ -105,9 +123,63 @@ def check_audio(case, rec_):
             early = True
     if len(got) != len(exp):
         raise Violation(f"{len(got)} regions, expected {len(exp)}", case)
+    if src.samples_out > N:
+        raise Violation(f"{src.samples_out} samples pulled from the source, max_read allows {N}", case)
     if src.none_returns > 1:
         raise Violation(f"end of stream requested {src.none_returns} times from the source", case)
     rec_.note(case, early, classes, out=[[s, e] for s, e in exp])
+
+
+def check_fifo(case, rec_, data, thr, aw, mind, maxd, sild):
+    """split(<path of a named pipe>, large_file=True): the file is produced while it is read.  The
+    feeder writes a piece only once the pipe has been drained, so at any time it has written at most
+    one piece more than the reader has taken out, and the reader takes out (buffering included) at
+    most what is there: when region i comes out, the bytes written are bounded by the end of its
+    deciding window plus two pieces.  No clock is involved in the verdict."""
+    import os
+
+    from .c10 import _FifoFeeder, _ctr
+
+    rec, win = case["audio"], case["win"]
+    kmin, kmax, ksil = win[:3]
+    B, sr, bps = rec["B"], rec["sr"], rec["sw"] * rec["ch"]
+    N = len(data) // bps
+    _dec, exp = expected_regions(data, rec, win, thr)
+    _ctr[0] += 1
+    path = os.path.join(os.environ.get("VF_TMPROOT", "/tmp"), f"c08fifo-{os.getpid()}-{_ctr[0]}")
+    piece = max(B * bps - 1, 1)
+    feeder = _FifoFeeder(path, data, [piece])
+    got, early = [], False
+    try:
+        gen = auditok.split(path, min_dur=mind, max_dur=maxd, max_silence=sild, drop_trailing_silence=win[3],
+                            strict_min_dur=win[4], energy_threshold=thr, use_channel=rec.get("uc"),
+                            analysis_window=aw, large_file=True, audio_format="raw",
+                            sr=sr, sw=rec["sw"], ch=rec["ch"])
+        for r in gen:
+            written = feeder.written
+            i = len(got)
+            got.append(r)
+            if i >= len(exp):
+                break
+            s, e = exp[i]
+            last = e if (e - s + 1) == kmax else (e + ksil + 1)
+            bound = min((last + 1) * B, N) * bps
+            if written > bound + 2 * piece:
+                raise Violation(
+                    f"region {i} (windows {s}..{e}) came out of a named pipe only after {written} bytes had been "
+                    f"written to it; its deciding window ends at byte {bound} (pieces of {piece} bytes, "
+                    f"each written once the pipe is empty; {len(data)} bytes in all)", case)
+            if bound + 4 * piece <= len(data):
+                early = True
+        if [(round(r.start * sr), len(r)) for r in got] != [(s * B, min((e + 1) * B, N) - s * B) for s, e in exp]:
+            raise Violation(f"regions from the named pipe differ from the expected ones {exp}", case)
+    finally:
+        feeder.finish()
+        try:
+            os.remove(path)
+        except OSError:
+            pass
+    rec_.note(case, early, {"audio_lazy_named_pipe"}, out=[[s, e] for s, e in exp])
 
 
 def explicit_cases():
@@ -116,6 +188,9 @@ def explicit_cases():
         {"audio": base, "win": [2, 4, 1, False, False], "via_reader": False},
         {"audio": base, "win": [2, 4, 1, True, True], "via_reader": True},
         {"audio": base, "win": [2, 4, 1, False, False], "via_reader": True, "overlap": True},
+        {"audio": base, "win": [2, 4, 1, False, False], "via_reader": False, "mr": [29, 0]},
+        {"audio": base, "win": [2, 4, 1, True, False], "via_reader": False, "mr": [15, 0.25]},
+        {"audio": base, "win": [2, 4, 1, False, False], "via_reader": False, "fifo": True},
     ]
 
 
@@ -124,4 +199,11 @@ def strategy(draw):
     c = draw(audio.audio_case(maxwin=40, maxB=6))
     c["via_reader"] = draw(st.booleans())
     c["overlap"] = draw(st.booleans())
+    if not c["via_reader"]:
+        from ..gen import rarely
+
+        if draw(st.booleans()):
+            c["mr"] = [draw(st.integers(1, 250)), draw(st.sampled_from([0, 0, 0.25, 0.75]))]
+        elif draw(rarely(6)):
+            c["fifo"] = True
     return c
